@@ -4,17 +4,100 @@
 // It lets the harness (a) play the role of "another Execute call that is inside its critical
 // section" by holding the coordinator's process lock for a while - a legal schedule - and (b) read
 // the pending flag of a session under that lock.
+//
+// The fields are reached by name through reflection, so the hook keeps compiling when the
+// synchronisation around pendingProcesses is changed (sync.Mutex -> sync.RWMutex, a pointer to a
+// lock, a sync.Map instead of the map, no lock at all ...): whatever the hook cannot find it
+// reports as "not available" and the harness falls back to what it can observe from outside.
 package tss
 
-// VerifLockProcesses takes the lock that guards pendingProcesses.
-func (c *Coordinator) VerifLockProcesses() { c.processLock.Lock() }
+import (
+	"reflect"
+	"sync"
+	"unsafe"
+)
+
+// verifField returns an addressable, readable view of the named field (invalid Value if absent).
+func (c *Coordinator) verifField(name string) reflect.Value {
+	f := reflect.ValueOf(c).Elem().FieldByName(name)
+	if !f.IsValid() {
+		return f
+	}
+	return reflect.NewAt(f.Type(), unsafe.Pointer(f.UnsafeAddr())).Elem()
+}
+
+// verifLocker returns the lock that guards pendingProcesses (exclusive side), nil if there is none.
+func (c *Coordinator) verifLocker() sync.Locker {
+	f := c.verifField("processLock")
+	if !f.IsValid() {
+		return nil
+	}
+	if l, ok := f.Addr().Interface().(sync.Locker); ok {
+		return l
+	}
+	if f.Kind() == reflect.Ptr && !f.IsNil() {
+		if l, ok := f.Interface().(sync.Locker); ok {
+			return l
+		}
+	}
+	return nil
+}
+
+// VerifLockProcesses takes the lock that guards pendingProcesses; false = there is no such lock.
+func (c *Coordinator) VerifLockProcesses() bool {
+	l := c.verifLocker()
+	if l == nil {
+		return false
+	}
+	l.Lock()
+	return true
+}
 
 // VerifUnlockProcesses releases it.
-func (c *Coordinator) VerifUnlockProcesses() { c.processLock.Unlock() }
+func (c *Coordinator) VerifUnlockProcesses() {
+	if l := c.verifLocker(); l != nil {
+		l.Unlock()
+	}
+}
 
-// VerifPending reads pendingProcesses[sessionID] under the lock.
-func (c *Coordinator) VerifPending(sessionID string) bool {
-	c.processLock.Lock()
-	defer c.processLock.Unlock()
-	return c.pendingProcesses[sessionID]
+// VerifPending reads pendingProcesses[sessionID] under the lock; known = false if the hook does
+// not understand how the pending sessions are kept.
+func (c *Coordinator) VerifPending(sessionID string) (pending bool, known bool) {
+	if l := c.verifLocker(); l != nil {
+		l.Lock()
+		defer l.Unlock()
+	}
+	f := c.verifField("pendingProcesses")
+	if !f.IsValid() {
+		return false, false
+	}
+	switch m := f.Addr().Interface().(type) {
+	case *map[string]bool:
+		return (*m)[sessionID], true
+	case *map[string]struct{}:
+		_, ok := (*m)[sessionID]
+		return ok, true
+	case *sync.Map:
+		v, ok := m.Load(sessionID)
+		if !ok {
+			return false, true
+		}
+		if b, isBool := v.(bool); isBool {
+			return b, true
+		}
+		return true, true
+	case **sync.Map:
+		if *m == nil {
+			return false, false
+		}
+		v, ok := (*m).Load(sessionID)
+		if !ok {
+			return false, true
+		}
+		if b, isBool := v.(bool); isBool {
+			return b, true
+		}
+		return true, true
+	}
+	return false, false
 }
